@@ -40,6 +40,7 @@ pub struct Ctx {
     hb_file: Option<std::fs::File>,
     pub scratch: PathBuf,
     pub exe: PathBuf,
+    time_checks: u64,
 }
 
 pub fn fnv(s: &[u8]) -> u64 {
@@ -61,7 +62,7 @@ impl Ctx {
             distinct: HashSet::new(), index: 0, start: Instant::now(),
             deadline: Instant::now() + Duration::from_secs(budget_s), capped: false,
             stages_done: vec![], stages_capped: vec![], notes: vec![], stage: String::new(), stage_capped: false,
-            beat, hb_file, scratch, exe: std::env::current_exe().unwrap_or_else(|_| PathBuf::from("fml")),
+            beat, hb_file, scratch, exe: std::env::current_exe().unwrap_or_else(|_| PathBuf::from("fml")), time_checks: 0,
         };
         ctx.spawn_watchdog();
         ctx
@@ -105,7 +106,8 @@ impl Ctx {
 
     pub fn time_up(&mut self) -> bool {
         if self.capped { return true }
-        if self.index % 64 == 0 && Instant::now() > self.deadline { self.capped = true; }
+        self.time_checks += 1;
+        if self.time_checks % 16 == 0 && Instant::now() > self.deadline { self.capped = true; }
         self.capped
     }
 
@@ -161,7 +163,8 @@ impl Ctx {
     pub fn violation(&mut self, key: &str, what: &str, detail: Value) {
         self.violation_count += 1;
         self.count(&format!("violation:{}", key), 1);
-        if self.violations.len() < 60 {
+        let same_key = *self.counters.get(&format!("violation:{}", key)).unwrap_or(&0);
+        if same_key <= 8 && self.violations.len() < 400 {
             self.violations.push(json!({"key": key, "what": what, "index": self.index.saturating_sub(1), "stage": self.stage, "detail": detail}));
         }
     }
